@@ -169,6 +169,21 @@ def r1_decision(ctx):
                 detail = "405 is reached only when a collection is non-empty; %s" % why
                 if ok:
                     idiom, deciding = "collected", ("call", ebb)
+    # idiom C: a flag set inside a loop over node.methods (`for h in values { if find(h, version).is_some() { found = true; break } }`):
+    # every path to the 405 has itself established find(handlers-of-an-item, request version) as Some
+    if idiom is None and states405:
+        for bb, t in lr.live_calls(r"Option::<T>::is_some$|Option::<T>::is_none$"):
+            want = t["callee"].endswith("is_some")
+            if not all(fs.get(("call", bb)) is want for fs in states405):
+                continue
+            gs = lr.slice(t["args"][0])
+            for c, hb, ht in gs.calls(r"^router::find_handler_matching_version$"):
+                hs0 = lr.slice(ht["args"][0], stop_at_calls=r"iter::Iterator::next$")
+                hs = lr.slice(ht["args"][0])
+                if _is_request_version(lr, lr, ht["args"][1], vparam) and hs.reads_field("methods") and bool(hs.locals() & set(lr.local_by_name("node"))) \
+                        and hs0.calls(r"iter::Iterator::next$") and not callee_allow(hs0, PLUMBING + [r"iter::Iterator::next$"]):
+                    idiom, deciding = "flag", None
+                    detail = "405 is reached only on paths that found an item of node.methods with find_handler_matching_version(its handlers, request version) being Some"
     ctx.check(R, "405-only-if-some-method-served-at-version", idiom is not None,
               detail or "the 405 constructor is not guarded by a version-filtered scan of node.methods (facts on a path reaching it: %s)" % (states405[:1] or "unreachable"), (lr, bb405))
     # the tail 404: reached when the deciding test failed
@@ -177,6 +192,9 @@ def r1_decision(ctx):
         st = lr.bool_states_at(bb) or []
         if deciding and st and all((fs.get(deciding) is (False if idiom == "any" else True)) for fs in st):
             tail.append(bb)
+    if idiom == "flag":
+        # the flag's false case cannot be expressed as a path fact; require the alternative: a for_not_found after the scan from which the 405 is unreachable
+        tail = [bb for bb, t in nf if bb405 not in lr.reachable(bb) and any(lr.dominates(b2, bb) for b2, _ in lr.live_calls(r"^router::find_handler_matching_version$"))]
     ctx.check(R, "404-when-no-method-served", len(tail) >= 1 and (deciding is None or not any(bb405 in lr.reachable(b) for b in tail)),
               "for_not_found sites reached exactly when the version-filtered scan found nothing: %d" % len(tail), lr)
     s404 = status_const_of_ctor(ctx.ds, "for_not_found")
